@@ -5,3 +5,9 @@ import SpdxVerif.Props.Consts
 #print axioms Spdx.C06.extract_mem
 #print axioms Spdx.C06.self_satisfies
 #print axioms Spdx.ConstsPin.reconstructed_literals
+#print axioms Spdx.C06.render_roundtrip
+#print axioms Spdx.C06.extract_self
+#print axioms Spdx.C06.satisfies_own_terms
+#print axioms Spdx.listed_foldClean
+#print axioms Spdx.C09.deprecated_have_no_suffix
+#print axioms Spdx.C09.lists_fold_distinct
